@@ -400,6 +400,11 @@ func (r *renderer) nameText(n MName) string {
 		return ""
 	case Rel:
 		s := r.spellLabels(n.Labels, false)
+		if s == `\#` {
+			// RFC 3597: the token \# announces generic RDATA; a name that consists of the octet
+			// "#" is therefore never written that way
+			return `\035`
+		}
 		if escapedOnly(s) {
 			if r.o.AvoidEscapedOnly {
 				if r.o.OnExcluded != nil {
